@@ -2,11 +2,12 @@ package sx
 
 import (
 	"fmt"
-	"os"
 	"go/token"
 	"go/types"
+	"os"
 	"sort"
 	"strings"
+	"time"
 
 	"golang.org/x/tools/go/ssa"
 )
@@ -105,7 +106,7 @@ type State struct {
 	PC      []*Term // conjuncts of G in the order they were added (keeps ite conditions local at merges)
 	Known   map[string]*Term
 	Facts   *FactSet
-	NextObj int   // per-state allocation counter (see newObj)
+	NextObj int // per-state allocation counter (see newObj)
 	// Preempt: remaining pre-emptions the scheduler may insert before unbuffered channel sends and
 	// mutex acquisitions (context-bounded schedule exploration, enabled by zzvrf.Preemptions)
 	Preempt int
@@ -120,6 +121,8 @@ type Config struct {
 	MaxDepth    int
 	MaxStates   int
 	MaxSteps    int
+	MaxTerms    int           // term budget (0 = 4,000,000)
+	Deadline    time.Duration // wall-clock budget of the symbolic execution (0 = none)
 	NoMerge     bool
 	Trace       bool
 	InitPkgs    []string // package paths whose init functions are executed
@@ -132,15 +135,16 @@ type Config struct {
 
 // Exec is one symbolic execution of a harness instance.
 type Exec struct {
-	Prog   *ssa.Program
-	tb     *TB
-	cfg    Config
-	infos  map[*ssa.Function]*FnInfo
-	nextFn int
-	nextOb  int
-	curSite int
+	started  time.Time
+	Prog     *ssa.Program
+	tb       *TB
+	cfg      Config
+	infos    map[*ssa.Function]*FnInfo
+	nextFn   int
+	nextOb   int
+	curSite  int
 	allocSeq int
-	sites   map[ssa.Instruction]int
+	sites    map[ssa.Instruction]int
 
 	Obligations []*Obligation
 	Inputs      []*Input
@@ -165,10 +169,10 @@ type Exec struct {
 
 	uf map[string][]ufApp
 
-	TermProf  map[string]int
+	TermProf    map[string]int
 	bufFieldIdx int // see intr_misc.go (per Exec: instances run in parallel)
-	lastClock *Term
-	SymClock  bool
+	lastClock   *Term
+	SymClock    bool
 }
 
 type ufApp struct {
@@ -191,6 +195,7 @@ func NewExec(prog *ssa.Program, cfg Config) *Exec {
 		FnsExecuted: map[string]int{}, StubsHit: map[string]int{}, Redirects: map[string]*ssa.Function{},
 		uf: map[string][]ufApp{}, TermProf: map[string]int{}}
 	x.nextOb = 1
+	x.started = time.Now()
 	x.sites = map[ssa.Instruction]int{}
 	return x
 }
@@ -571,6 +576,18 @@ func (x *Exec) push(s *State) {
 	x.NStates++
 	if x.NStates > x.cfg.MaxStates {
 		x.fail("state budget exceeded (%d states)", x.cfg.MaxStates)
+	}
+	if x.NStates&255 == 0 {
+		mt := x.cfg.MaxTerms
+		if mt == 0 {
+			mt = 4000000
+		}
+		if x.tb.NTerms > mt {
+			x.fail("term budget exceeded (%d terms): inconclusive", mt)
+		}
+		if x.cfg.Deadline > 0 && time.Since(x.started) > x.cfg.Deadline {
+			x.fail("execution time budget exceeded (%s): inconclusive", x.cfg.Deadline)
+		}
 	}
 }
 
